@@ -244,7 +244,7 @@ def gen_streams(kind, lo, hi, rng):
                 yield shaped(L, typ) + KEEPALIVE + S.UPD_EMPTY
     elif kind == 'lenb':
         for L in (0, 1, 18, 19, 20, 22, 23, 24, 29, 4095, 4096, 4097, 4098, 32768, 65535):
-            for typ in (4, 2, 1, 3, 5):
+            for typ in (4, 2, 1, 3, 5, 0, 6, 9, 127, 255):       # unknown types too: which violation is reported when both apply
                 yield shaped(L, typ) + KEEPALIVE + S.UPD_EMPTY
                 yield KEEPALIVE + shaped(L, typ) + KEEPALIVE
     elif kind == 'type':
